@@ -18,7 +18,7 @@ SEARCH_AOBJ = $(patsubst engines/%.cpp,$(B)/asan/%.o,$(SEARCH_SRC))
 
 .PHONY: all prod asan clean
 all: prod asan
-asan: $(B)/copymove_asan
+asan: $(B)/copymove_asan $(B)/search_asan $(B)/multidim_asan $(B)/mapped_asan $(B)/dynamic_asan $(B)/cabi_asan
 prod: $(B)/search $(B)/segmentation $(B)/dynamic $(B)/multidim $(B)/mapped $(B)/cabi $(B)/reject
 
 $(STAMP):
